@@ -98,6 +98,9 @@ func runJob(ld *Loaded, j Job) (res JobResult) {
 	e.Run(j.Name(), fn, args, nil)
 	res.Paths, res.Dead, res.Oblig, res.Disch, res.Decisions = e.paths, e.deadPaths, e.oblig, e.disch, e.decisions
 	res.Findings, res.Inconc = e.findings, e.inconc
+	for i := range res.Findings {
+		res.Findings[i].Job = j
+	}
 	res.Stats = *e.stats
 	for f := range e.funcs {
 		res.Funcs = append(res.Funcs, f)
@@ -182,6 +185,7 @@ func cmdRun(args []string) {
 	threads := fs.Bool("threads", false, "thread mode")
 	alloc := fs.Bool("alloc", false, "track allocations")
 	stubs := fs.String("stubs", "", "comma separated stub switches")
+	maxwall := fs.Int("wall", 0, "wall budget per job (s)")
 	fs.Parse(args)
 	rest := fs.Args()
 	if len(rest) < 2 {
@@ -195,6 +199,7 @@ func cmdRun(args []string) {
 	}
 	j := Job{Pkg: rest[0], Func: rest[1], SplitN: *split, Threads: *threads}
 	j.Cfg.MaxLoop = *maxloop
+	j.Cfg.MaxWall = *maxwall
 	j.Cfg.PermuteMaps = *perm
 	j.Cfg.TrackAlloc = *alloc
 	j.Cfg.Stubs = map[string]bool{}
@@ -208,6 +213,22 @@ func cmdRun(args []string) {
 		j.Args = append(j.Args, v)
 	}
 	jobs := []Job{j}
+	if strings.HasSuffix(j.Func, "*") {
+		jobs = nil
+		pkg := ld.pkgs[pkgPath(j.Pkg)]
+		var names []string
+		for name := range pkg.Members {
+			if strings.HasPrefix(name, strings.TrimSuffix(j.Func, "*")) && pkg.Func(name) != nil {
+				names = append(names, name)
+			}
+		}
+		sort.Strings(names)
+		for _, n := range names {
+			jj := j
+			jj.Func = n
+			jobs = append(jobs, jj)
+		}
+	}
 	if *only >= 0 {
 		j.SplitK = *only
 		res := runJob(ld, j)
